@@ -1,0 +1,19 @@
+//go:build verif
+
+package net
+
+import "net"
+
+// VerifC08TryAccept takes the next queued connection without blocking.
+// ok is false when nothing is queued (or the listener is closed and drained).
+func (l *InternalListener) VerifC08TryAccept() (conn net.Conn, ok bool) {
+	select {
+	case c, open := <-l.acceptCh:
+		if !open {
+			return nil, false
+		}
+		return c, true
+	default:
+		return nil, false
+	}
+}
